@@ -37,6 +37,23 @@ theorem no_internal_error (env : Env) (cfg : Cfg) (hw : env.w = World.std) (hfl 
     ∃ s', s1.advanceAction env = .ok s' :=
   advanceAction_total_of_reachable hw hfl hv hrank h h1
 
+/-- `no_internal_error` for a rounding that is exact only up to `B`, with at most `B` chips on the table -/
+theorem no_internal_error_B (env : Env) (cfg : Cfg) (hw : env.w = World.std) {B : Int}
+    (hfl : C14.FlSpecB B env.fl) (hv : cfg.Valid) (hB : sumI cfg.startingStacks ≤ B)
+    (hrank : RankTotal cfg.game env.rankFn) {s s1 : State} (h : Reachable env cfg s)
+    (p : Int) (ty : Option ActType) (amt : Option Int) (h1 : s.appendAction env.w p ty amt = .ok s1) :
+    ∃ s', s1.advanceAction env = .ok s' :=
+  advanceAction_total_of_reachable_B hw hfl hv hB hrank h h1
+
+/-- **`no_internal_error` for IEEE doubles** (`fl := Float53.rnd`, what the native driver executes), provided the chips
+on the table do not exceed `2^53` -/
+theorem no_internal_error_f53 (env : Env) (cfg : Cfg) (hw : env.w = World.std) (hfl : env.fl = Float53.rnd)
+    (hv : cfg.Valid) (hB : sumI cfg.startingStacks ≤ 2 ^ 53) (hrank : RankTotal cfg.game env.rankFn)
+    {s s1 : State} (h : Reachable env cfg s)
+    (p : Int) (ty : Option ActType) (amt : Option Int) (h1 : s.appendAction env.w p ty amt = .ok s1) :
+    ∃ s', s1.advanceAction env = .ok s' :=
+  no_internal_error_B env cfg hw (by rw [hfl]; exact C14.flSpecB_f53) hv hB hrank h p ty amt h1
+
 /-- `k` accepted actions lead from `s` to `s'` -/
 inductive Run (env : Env) : State → Nat → State → Prop
   | refl (s : State) : Run env s 0 s
